@@ -113,6 +113,10 @@ func declarations(thorough bool) []Decl {
 								d := base
 								d.Type, d.Format, d.Valid, d.Registry = s.t, s.f, v, s.reg
 								out = append(out, d)
+								if s.reg == "own" { // order of setup: the same formats, registered after the binder was built
+									d.LateFormats = true
+									out = append(out, d)
+								}
 							}
 						}
 						for _, it := range items {
@@ -130,6 +134,10 @@ func declarations(thorough bool) []Decl {
 									d := base
 									d.Type, d.ItemType, d.ItemFormat, d.CF, d.Valid, d.Registry = "array", it.t, it.f, cf, v, it.reg
 									out = append(out, d)
+									if it.reg == "own" {
+										d.LateFormats = true
+										out = append(out, d)
+									}
 								}
 							}
 						}
@@ -296,6 +304,9 @@ func main() {
 		if len(c.Ops) > 0 {
 			replayMulti(r, c)
 		}
+		if len(c.Prior) > 0 {
+			replayHostile(r, c)
+		}
 		if c.Peer != nil && len(c.Q.Texts) == 1 {
 			fmt.Printf("replay level=%s (literal-grammar consistency)\n  parameter: %v\n", c.Level, c.D.paramJSON())
 			cl, what := checkPeer(c)
@@ -392,6 +403,7 @@ func main() {
 		"allowEmptyValue":   "query and formData only",
 		"formats_registry":  "default registry | the application's own registry (strfmt.NewFormats()+Add at the Bind levels, untyped.API.RegisterFormat at the handler level) with user format x-shout (own Go type, upper-casing UnmarshalText, own validator) and a user hexcolor shadowing the built-in name; scalars and array items, every location",
 		"literal_grammar":   "zero-padded in-range numerals 42, -42, +7 of 3, 19, 20, 21, 22 and 40 characters for every integer width, scalars and array items (3, 21, 40): three-valued like every leading-zero spelling, plus one decision (bound / 422) demanded per class of texts that differ only in padding",
+		"formats_setup_order": "own-registry declarations twice: formats added to the registry before the binder / handler is built, and added to the SAME registry after it was built (before the first request); same reference for both",
 		"collection_format": []string{"(none)", "csv", "ssv", "tsv", "pipes", "multi (query, formData)"},
 		"presence":          "absent, empty, once (every text), twice (valid first + every text; every text + valid last), three times, empty twice, other spellings of the name on the wire, decoys in the other locations",
 	})
@@ -520,11 +532,13 @@ func main() {
 	})
 	// multi-operation sweep: same name, same location, different declarations in one API
 	multiSweep(r)
+	// hostile-caller histories: two consecutive requests on one instance, the caller overwrites what it was handed
+	hostileSweep(r, decls, thorough)
 	r.Assume("the reference (props/c03/ref.go) lists what every text of the alphabet denotes; spellings, empty texts and absent optional parameters that the property text does not settle are three-valued (MAY) and never reported",
 		"requests are rendered as HTTP/1.1 text and parsed by net/http.ReadRequest; header field values lose surrounding blanks there (HTTP), every other location is escaped by the renderer and arrives unchanged",
 		"statuses at the map/struct level are derived from the binder's error the way go-openapi/errors.ServeError does (first nested error, codes >= 600 answer 422)")
 	pprof.StopCPUProfile()
-	r.Finish("every declaration of the stated product x every request of the stated presence/text sets, at each level; one evaluation = one Bind call or one request through the handler stack on the real code, compared with the reference; non-trivial = the property text forces the outcome of the case (MUST bind exactly one of the listed values, or MUST be 422) so the comparison can fail both ways; the same declarations x requests are also driven through the other exported entry points (Bind with a map pointer and a logger set, Context.RoutesHandler, middleware.Serve, and the helpers runtime.ReadSingleValue / ReadCollectionValue / RouteParams.Get on the location's values) on a reduced declaration set, judged by the same reference; distinct by construction: the enumerators never repeat a (level, declaration, request) triple. The formats registry is a configuration axis (default registry, or the application's own registry with a user-defined format and a user format shadowing a built-in name; the reference then demands the value and Go type the text denotes under that registry). Texts that differ only in zero padding (same value, 3 to 40 characters) must get one decision per declaration and level. Multi-operation sweep (handler level): every ordered pair (thorough: also every ordered triple of the first six) of the colliding declaration alphabet per location as operations of ONE API, rebuilt the stated number of times; every request of the shared request alphabet to every operation, alone and as the second of two (third of three) consecutive requests to different operations on one handler instance, must give exactly the result of a fresh single-operation API of that operation's own declaration, which is itself judged by the reference; each such request is one non-trivial evaluation", true)
+	r.Finish("every declaration of the stated product x every request of the stated presence/text sets, at each level; one evaluation = one Bind call or one request through the handler stack on the real code, compared with the reference; non-trivial = the property text forces the outcome of the case (MUST bind exactly one of the listed values, or MUST be 422) so the comparison can fail both ways; the same declarations x requests are also driven through the other exported entry points (Bind with a map pointer and a logger set, Context.RoutesHandler, middleware.Serve, and the helpers runtime.ReadSingleValue / ReadCollectionValue / RouteParams.Get on the location's values) on a reduced declaration set, judged by the same reference; distinct by construction: the enumerators never repeat a (level, declaration, request) triple. The formats registry is a configuration axis (default registry, or the application's own registry with a user-defined format and a user format shadowing a built-in name; the reference then demands the value and Go type the text denotes under that registry). Texts that differ only in zero padding (same value, 3 to 40 characters) must get one decision per declaration and level. Multi-operation sweep (handler level): every ordered pair (thorough: also every ordered triple of the first six) of the colliding declaration alphabet per location as operations of ONE API, rebuilt the stated number of times; every request of the shared request alphabet to every operation, alone and as the second of two (third of three) consecutive requests to different operations on one handler instance, must give exactly the result of a fresh single-operation API of that operation's own declaration, which is itself judged by the reference; each such request is one non-trivial evaluation. Order of setup: every declaration under the application's own registry is also built with the formats added to that registry AFTER the binder / handler was constructed, judged by the same reference. Hostile-caller histories: for every declaration at the map, struct and handler level every ordered pair (earlier, judged) of {absent, empty, text A, text B, A then B} is served by ONE instance (one instance per earlier request a serves a,b1,a,b2,... so each judged request directly follows a); after every request every element of every slice / byte string that was bound is overwritten in place and the handler's map emptied; the judged request must be answered exactly as by a fresh instance (one non-trivial evaluation per pair)", true)
 }
 
 // variantDecls: the reduced declaration set of the exported-surface variants.
